@@ -235,3 +235,64 @@ impl FunctionDefinition for CtxFn {
         })
     }
 }
+
+// ---------------------------------------------------------------------------
+// A definition that panics on demand at a chosen stage (C20).
+
+thread_local! {
+    /// 0 = never, 1 = in check_param (parse), 2 = in compile, 3 = when executed
+    pub static BOOM_AT: std::cell::Cell<u8> = const { std::cell::Cell::new(0) };
+}
+
+pub fn set_boom(stage: u8) {
+    BOOM_AT.with(|b| b.set(stage));
+}
+
+#[derive(Debug)]
+pub struct BoomFn;
+
+impl FunctionDefinition for BoomFn {
+    fn check_param(
+        &self,
+        _settings: &ParserSettings,
+        _params: &mut dyn ExactSizeIterator<Item = FunctionParam<'_>>,
+        next_param: &FunctionParam<'_>,
+        _ctx: Option<&mut FunctionDefinitionContext>,
+    ) -> Result<(), FunctionParamError> {
+        if BOOM_AT.with(|b| b.get()) == 1 {
+            panic!("kaboom-in-check_param");
+        }
+        if next_param.get_type() != Type::Bytes {
+            return Err(FunctionParamError::TypeMismatch(TypeMismatchError {
+                expected: Type::Bytes.into(),
+                actual: next_param.get_type(),
+            }));
+        }
+        Ok(())
+    }
+    fn return_type(
+        &self,
+        _params: &mut dyn ExactSizeIterator<Item = FunctionParam<'_>>,
+        _ctx: Option<&FunctionDefinitionContext>,
+    ) -> Type {
+        Type::Bytes
+    }
+    fn arg_count(&self) -> (usize, Option<usize>) {
+        (1, Some(0))
+    }
+    fn compile(
+        &self,
+        _params: &mut dyn ExactSizeIterator<Item = FunctionParam<'_>>,
+        _ctx: Option<FunctionDefinitionContext>,
+    ) -> CompiledFunction {
+        if BOOM_AT.with(|b| b.get()) == 2 {
+            panic!("kaboom-in-compile");
+        }
+        Box::new(|args| {
+            if BOOM_AT.with(|b| b.get()) == 3 {
+                panic!("kaboom-in-execute");
+            }
+            args.next().and_then(|a| a.ok())
+        })
+    }
+}
